@@ -75,9 +75,20 @@ func rprop(f func(ConstVector) (MagicScalar, error), x0 ConstVector, step_init f
     gradient_new[i] = 1
     gradient_old[i] = 1
   }
+  // true if no coordinate with a non-zero partial derivative can move anymore
+  // (a step that has underflowed to zero can never grow again)
+  steps_are_zero := func() bool {
+    for i := 0; i < n; i++ {
+      if gradient_new[i] != 0.0 && step[i] != 0.0 {
+        return false
+      }
+    }
+    return true
+  }
   gradient_is_nan := func(s Scalar) bool {
     for i := 0; i < s.GetN(); i++ {
-      if math.IsNaN(s.GetDerivative(i)) {
+      // an infinite partial derivative is as useless as NaN
+      if d := s.GetDerivative(i); math.IsNaN(d) || math.IsInf(d, 0) {
         return true
       }
     }
@@ -115,6 +126,9 @@ func rprop(f func(ConstVector) (MagicScalar, error), x0 ConstVector, step_init f
     // evaluate stop criterion
     if (Norm(gradient_new) < epsilon.Value) {
       break
+    }
+    if steps_are_zero() {
+      return x1, fmt.Errorf("step sizes underflowed to zero before the stopping criterion was met")
     }
     // update step size
     for i := 0; i < x1.Dim(); i++ {
@@ -154,6 +168,14 @@ func rprop(f func(ConstVector) (MagicScalar, error), x0 ConstVector, step_init f
           if gradient_new[i] != 0.0 {
             step[i] *= eta[1]
           }
+        }
+        // no step is left to try: give up instead of evaluating the
+        // same point forever
+        if steps_are_zero() {
+          if err != nil {
+            return x1, err
+          }
+          return x1, fmt.Errorf("no valid point found: step sizes underflowed to zero")
         }
       } else {
         // new position is valid, exit loop
